@@ -397,7 +397,7 @@ impl KotoVm {
             return unexpected_type("Function", &function);
         }
 
-        let result_register = self.next_register();
+        let result_register = self.new_frame_base()?;
         self.registers.push(KValue::Null); // Result register
 
         let args = match (&args, &function) {
@@ -416,7 +416,7 @@ impl KotoVm {
             _ => args,
         };
 
-        let frame_base = self.next_register();
+        let frame_base = self.new_frame_base()?;
         self.registers.push(instance.unwrap_or_default()); // Frame base
 
         let arg_count = match args {
@@ -483,8 +483,10 @@ impl KotoVm {
 
         let old_frame_count = self.call_stack.len();
 
-        let result_register = self.next_register();
-        let value_register = result_register + 1;
+        let result_register = self.new_frame_base()?;
+        let Some(value_register) = result_register.checked_add(1) else {
+            return runtime_error!("Overflow of the current frame's register stack");
+        };
 
         self.registers.push(KValue::Null); // `result_register`
         self.registers.push(value); // `value_register`
@@ -520,9 +522,11 @@ impl KotoVm {
     pub fn run_binary_op(&mut self, op: BinaryOp, lhs: KValue, rhs: KValue) -> Result<KValue> {
         let old_frame_count = self.call_stack.len();
 
-        let result_register = self.next_register();
+        let result_register = self.new_frame_base()?;
+        let Some(rhs_register) = result_register.checked_add(2) else {
+            return runtime_error!("Overflow of the current frame's register stack");
+        };
         let lhs_register = result_register + 1;
-        let rhs_register = result_register + 2;
 
         self.registers.push(KValue::Null); // Result register
         self.registers.push(lhs);
@@ -597,9 +601,11 @@ impl KotoVm {
     ) -> Result<KValue> {
         let old_frame_count = self.call_stack.len();
 
-        let result_register = self.next_register();
+        let result_register = self.new_frame_base()?;
+        let Some(read_arg_register) = result_register.checked_add(2) else {
+            return runtime_error!("Overflow of the current frame's register stack");
+        };
         let container_register = result_register + 1;
-        let read_arg_register = result_register + 2;
 
         self.registers.push(KValue::Null); // Result register
         self.registers.push(container);
@@ -631,10 +637,12 @@ impl KotoVm {
     ) -> Result<KValue> {
         let old_frame_count = self.call_stack.len();
 
-        let result_register = self.next_register();
+        let result_register = self.new_frame_base()?;
+        let Some(write_value_register) = result_register.checked_add(3) else {
+            return runtime_error!("Overflow of the current frame's register stack");
+        };
         let container_register = result_register + 1;
         let write_arg_register = result_register + 2;
-        let write_value_register = result_register + 3;
 
         self.registers.push(KValue::Null); // Result register
         self.registers.push(container);
